@@ -156,6 +156,15 @@ type hist struct {
 	units  []hUnit
 	ext    map[string][]string // f32/f64/tz/civil assoc entries
 	bias   int64               // large-offset histories: every offset past a file's head FDE is moved up by this much
+	empty  bool                // the replica starts at ("", 4): "oldest binlog"; labels carry "" until the first ROTATE
+}
+
+// startFile is the file name the replica is configured with for this history.
+func (h *hist) startFile() string {
+	if h.empty {
+		return ""
+	}
+	return firstFile
 }
 
 func (h *hist) line(p string, extra ...string) string {
@@ -571,6 +580,7 @@ func genHistory(r *RNG, o histOpts, cfg string) *hist {
 		// binlog files beyond 2 GiB / close to the 4 GiB limit of the 32-bit next_position field
 		h.bias = []int64{1<<31 - 200, 1<<31 - 20, 1 << 31, 3 << 30, 1<<32 - 1<<21, int64(r.Intn(1 << 31))}[r.Intn(6)]
 	}
+	h.empty = r.Chance(1, 6)
 	nu := r.Range(1, o.maxUnits)
 	ts := uint32(1600000000 + r.Intn(1000))
 	fileNo := 1
